@@ -5,7 +5,7 @@
   `List.Perm` of `usplits` / `tipLens` means: the same splits with the same lengths and
   supports (as a multiset; the lists themselves are sorted by a printing of the side).
 -/
-import Gotree.Lemmas.C05Half
+import Gotree.Lemmas.C05Clade
 
 /- The property theorems live in `Gotree.C05.P` (the shared lemma file already uses the
    plain names `C05.moveRoot_dist` … for its general versions). -/
@@ -121,8 +121,7 @@ example : (rerootOutGroup false true ["B", "A"] exT).cls = "ok" := by decide +ke
 /-- `RerootMidPoint`, whenever it succeeds, preserves the tip set, the unrooted splits (the
     cut branch counting as one branch with its full length and its support) and every
     tip-to-tip distance, and the new root has exactly two children.
-    (`midpoint_halfway` — the root is halfway along a longest path — is the oracle `halfwayOK`,
-    checked on every case; see `partial_theorems` in checks/C05.json.) -/
+    (The halfway clause is `midpoint_halfway` below.) -/
 theorem midpoint_preserves (t t' : T) (hu : uniq t = true) (hl : lensOK t = true) (hs : supsOK t = true)
     (h : rerootMidPoint t = .ok t') :
     t'.kids.length = 2 ∧
@@ -216,6 +215,20 @@ example : isSide exT ["A", "B"] = true := by
   | err m => rw [h] at hc; simp [Res.cls] at hc
   | panic m => rw [h] at hc; simp [Res.cls] at hc
 
+/-- `outgroup_clade` in the vocabulary of the oracle: under the same hypotheses, and when no two
+    branches of the unrooted tree carry the same split (`branchesDistinct`: no node with exactly
+    two neighbours), the Spec predicate `cladeOK` — two root clades, one exactly the outgroup, both
+    root branches of length l/2 where l is the (fused) length of that split in the input, each
+    carrying its support — holds on the result; and `insideOK` holds in every mode. -/
+theorem outgroup_clade_oracle (t t' : T) (strict : Bool) (S : List String)
+    (hu : uniq t = true) (hl : lensOK t = true) (hs : supsOK t = true)
+    (h : rerootOutGroup false strict S t = .ok t') :
+    insideOK t S t' = true ∧
+    ((strict = true ∨ isSide t S = true) → branchesDistinct t = true → cladeOK t S t' = true) :=
+  ⟨insideOK_of t t' strict S h ((uniq_iff t).1 hu) ((lensOK_iff t).1 hl) ((supsOK_iff t).1 hs),
+   fun hside hD => cladeOK_of t t' strict S h ((uniq_iff t).1 hu) ((lensOK_iff t).1 hl) ((supsOK_iff t).1 hs)
+     hside ((branchesDistinct_iff t).1 hD)⟩
+
 /-- `outgroup_clade`, removal requested: when `RerootOutGroup(remove = true)` succeeds on an
     outgroup that is one side of a split (or in strict mode), the outgroup is absent and
     everything else is intact: the tips are exactly the tips that are not in the outgroup, and
@@ -229,6 +242,21 @@ theorem outgroup_removed (t t' : T) (strict : Bool) (S : List String)
   outgroup_remove_same t t' strict S h ((uniq_iff t).1 hu) ((lensOK_iff t).1 hl) ((supsOK_iff t).1 hs) hside
 
 example : (rerootOutGroup true true ["A", "B"] exT).cls = "ok" := by decide +kernel
+
+/-- `outgroup_removed`, split sets and oracle vocabulary: moreover the non-trivial sides of the
+    result are exactly the restrictions, to the remaining tips, of the non-trivial sides of the
+    input (those that stay non-trivial); and when the sort keys of the result are distinct the
+    Spec predicate `removedOK` — what the oracle evaluates — holds. -/
+theorem outgroup_removed_restriction (t t' : T) (strict : Bool) (S : List String)
+    (hu : uniq t = true) (hl : lensOK t = true) (hs : supsOK t = true)
+    (hside : strict = true ∨ isSide t S = true)
+    (h : rerootOutGroup true strict S t = .ok t') :
+    (∀ K : List String, K.Perm t'.tipNames → ∀ a, a ∈ t'.usplits.map (·.side) ↔
+      a ∈ ((t.usplits.map (·.side)).map (fun σ => canonSide K (σ.filter K.contains))).filter
+        (fun a => decide (2 ≤ lightSize K a))) ∧
+    (keysOK t' = true → removedOK t (outTips t S) t' = true) :=
+  ⟨(outgroup_remove_full t t' strict S h ((uniq_iff t).1 hu) ((lensOK_iff t).1 hl) ((supsOK_iff t).1 hs) hside).2.2,
+   fun hk => removedOK_of t t' strict S h ((uniq_iff t).1 hu) ((lensOK_iff t).1 hl) ((supsOK_iff t).1 hs) hside hk⟩
 
 /-- `outgroup_strict_refuses`: an outgroup that is not one side of a split of the tree (a
     "non-monophyletic" outgroup, in the unrooted sense) is refused in strict mode. -/
